@@ -2,6 +2,8 @@ package harness
 
 import (
 	"math/big"
+	"os"
+	"strconv"
 )
 
 // generators maps a property id to its plan generator (swarm style: every knob is drawn
@@ -159,6 +161,22 @@ func genLedgerWith(b ledgerBias) func(r *prng, seed uint64, tier string) *Plan {
 			}
 			cfg.TruncateDiff = uint64(2 + r.Intn(max-1))
 		}
+		if cfg.TruncateDiff > 0 && r.Chance(truncNatP) {
+			// natural truncation through the weight signal (the real runTruncate loop)
+			cfg.TruncateAt = cfg.TruncateDiff*2 + uint64(r.Intn(6))
+		}
+		// half of those runs truncate only the way a deployment does (no synchronous trigger in between)
+		naturalOnly := cfg.TruncateAt > 0 && r.Chance(truncNatOnlyP)
+		longRun := false
+		if naturalOnly && r.Chance(0.6) {
+			// shallow cut and the lowest threshold the code accepts: two or three truncations fit into one run
+			cfg.TruncateDiff = uint64(2 + r.Intn(2))
+			cfg.TruncateAt = 2*cfg.TruncateDiff + uint64(r.Intn(2))
+			longRun = true
+		}
+		if cfg.Nodes > 1 && r.Chance(0.3) {
+			cfg.CtxCancelOnReturn = true // request contexts as under grpc-go
+		}
 		if b.fine && r.Chance(0.7) {
 			cfg.PreemptP = []float64{0.02, 0.1, 0.3, 0.5}[r.Intn(4)]
 		}
@@ -173,6 +191,9 @@ func genLedgerWith(b ledgerBias) func(r *prng, seed uint64, tier string) *Plan {
 		if tier == "thorough" && r.Chance(0.3) {
 			nSteps *= 2
 		}
+		if longRun {
+			nSteps *= 2
+		}
 		partitioned := false
 		var proposals []int
 		for len(p.Steps) < nSteps {
@@ -183,7 +204,11 @@ func genLedgerWith(b ledgerBias) func(r *prng, seed uint64, tier string) *Plan {
 				p.Steps = append(p.Steps, Step{Op: "probe", Node: node, DelayMS: r.Intn(100)})
 				continue
 			case x < b.probeP+b.truncP*0.25 && cfg.TruncateDiff > 0 && len(p.Steps) > int(cfg.TruncateDiff):
-				p.Steps = append(p.Steps, Step{Op: "truncate", Node: node, DelayMS: r.Intn(50)})
+				op := "truncate"
+				if naturalOnly {
+					op = "probe"
+				}
+				p.Steps = append(p.Steps, Step{Op: op, Node: node, DelayMS: r.Intn(50)})
 				continue
 			case r.Chance(b.dupP) && len(proposals) > 0:
 				p.Steps = append(p.Steps, Step{Op: "dup", Node: node, Ref: proposals[r.Intn(len(proposals))], DelayMS: r.Intn(200), NoWait: r.Chance(b.noWaitP)})
@@ -373,4 +398,16 @@ func init() {
 	c10 := base
 	c10.forbiddenP, c10.crashP = 0.3, 0.05
 	generators["C10"] = genLedgerWith(c10)
+}
+
+// share of truncating runs that use the weight-triggered truncation loop, and of those the share without any synchronous trigger
+var truncNatP, truncNatOnlyP = envFloat("SIM_TRUNC_NAT_P", 0.35), envFloat("SIM_TRUNC_NATONLY_P", 0.5)
+
+func envFloat(k string, d float64) float64 {
+	if v := os.Getenv(k); v != "" {
+		if f, err := strconv.ParseFloat(v, 64); err == nil {
+			return f
+		}
+	}
+	return d
 }
